@@ -44,3 +44,10 @@ package tchannel
 //@   label heap-is-rearranged-under-the-write-lock
 //@   requires wlocked(l)
 //@   property C04 C15
+
+// (the two public selection entry points count for C04 too: they are where the
+// write lock is taken before choosePeer runs)
+//@ func (l *PeerList) Get(prevSelected map[string]struct{}) (p *Peer, err error)
+//@   property C04
+//@ func (l *PeerList) GetNew(prevSelected map[string]struct{}) (p *Peer, err error)
+//@   property C04
